@@ -359,7 +359,16 @@ func genAResp(r *vlib.R, kind int) string {
 	as := func(owner string) []string {
 		var rs []string
 		for i, k := 0, 1+r.Intn(3); i < k; i++ {
-			rs = append(rs, fmt.Sprintf("4/%d/%s/%s", vlib.Pick(r, ttlPool), owner, hx(genV4(r))))
+			ip := genV4(r)
+			switch r.Intn(8) {
+			case 0: // the form miekg produces when it unpacks an A record
+				ip = append([]byte{0, 0, 0, 0, 0, 0, 0, 0, 0, 0, 0xff, 0xff}, ip...)
+			case 1:
+				if r.Chance(1, 3) { // 16 bytes that are not an IPv4 address
+					ip = append([]byte{0x20, 0x01, 0x0d, 0xb8, 0, 0, 0, 0, 0, 0, 0, 0}, ip...)
+				}
+			}
+			rs = append(rs, fmt.Sprintf("4/%d/%s/%s", vlib.Pick(r, ttlPool), owner, hx(ip)))
 		}
 		return rs
 	}
@@ -411,6 +420,97 @@ func pickWeighted(r *vlib.R, w []int) int {
 	return 0
 }
 
+// wireOf packs a dot-separated plain name into uncompressed wire form.
+func wireOf(labels [][]byte) []byte {
+	var b []byte
+	for _, l := range labels {
+		if len(l) == 0 {
+			continue
+		}
+		if len(l) > 63 {
+			l = l[:63]
+		}
+		b = append(b, byte(len(l)))
+		b = append(b, l...)
+	}
+	return append(b, 0)
+}
+
+func splitLabels(name string) [][]byte {
+	var out [][]byte
+	for _, l := range strings.Split(strings.TrimSuffix(name, "."), ".") {
+		out = append(out, []byte(l))
+	}
+	return out
+}
+
+var oddLabels = []string{"a.b", "A B", "\x00x", "\xe9t\xe9", "back\\slash", "semi;colon", "(p)", "\"q\"", "x@y", "it's", "~tilde", "del\x7f", "\xff", "UPPER", "tab\there", "1", "\\", "."}
+
+// qnameField renders the queried name for the op line: mostly as a wire name
+// (`w:`), whose labels may hold bytes that need escaping in presentation form
+// (dots inside a label, upper case, non-printable and 8-bit bytes); sometimes
+// as legacy presentation text.
+func qnameField(r *vlib.R, name string, allowText bool) (string, bool) {
+	if name == "" || strings.Contains(name, "..") || strings.HasPrefix(name, ".") && name != "." {
+		return hexOfName(name), false
+	}
+	if allowText && r.Chance(1, 4) {
+		return hexOfName(name), false
+	}
+	labels := splitLabels(name)
+	if name == "." {
+		labels = nil
+	}
+	if len(labels) > 0 && len(labels[0]) > 0 {
+		switch r.Intn(12) {
+		case 0:
+			labels = append([][]byte{[]byte(vlib.Pick(r, oddLabels))}, labels...)
+		case 1:
+			labels[0] = []byte(vlib.Pick(r, oddLabels))
+		case 2: // "x.example" + "org": a dot inside a label next to a zone boundary
+			if len(labels) >= 2 {
+				merged := append(append(append([]byte{}, labels[0]...), '.'), labels[1]...)
+				labels = append([][]byte{merged}, labels[2:]...)
+			}
+		case 3:
+			labels[r.Intn(len(labels))] = []byte(strings.ToUpper(string(labels[0])))
+		}
+	}
+	for _, l := range labels {
+		if len(l) == 0 || len(l) > 63 {
+			return hexOfName(name), false
+		}
+	}
+	return "w:" + hx(wireOf(labels)), true
+}
+
+func flags7(r *vlib.R, internal, rd, cd, wx, isWire bool) string {
+	replay := r.Chance(1, 4)
+	wire := isWire && r.Chance(2, 5)
+	twoQ := r.Chance(1, 40)
+	if wire {
+		wx = false
+	}
+	return vlib.B(internal) + vlib.B(rd) + vlib.B(cd) + vlib.B(wx) + vlib.B(replay) + vlib.B(wire) + vlib.B(twoQ)
+}
+
+var sectPool = []string{"4/60/3/c0000201", "6/60/3/20010db8000000000000000000000053", "o/30/4", "4/300/4/0a000001", "O", "s/300/z/60", "c/60/5/6"}
+
+func genSection(r *vlib.R, allowOPT bool) string {
+	if !r.Chance(1, 3) {
+		return "-"
+	}
+	var out []string
+	for i, k := 0, 1+r.Intn(3); i < k; i++ {
+		t := vlib.Pick(r, sectPool)
+		if t == "O" && !allowOPT {
+			continue
+		}
+		out = append(out, t)
+	}
+	return rrsStr(out)
+}
+
 func genServe(r *vlib.R, g *genCfg, emit func(string)) int {
 	eligible := !r.Chance(1, 6)
 	client := genClient(r, g, eligible)
@@ -429,22 +529,27 @@ func genServe(r *vlib.R, g *genCfg, emit func(string)) int {
 		dk = vlib.Pick(r, []int{3, 4, 4, 0})
 	}
 	down := genDown(r, dk)
-	ar := genAResp(r, pickWeighted(r, []int{40, 20, 6, 6, 8, 3}))
+	if down != "-" {
+		down += ";" + genSection(r, false)
+	}
+	ar := genAResp(r, pickWeighted(r, []int{40, 20, 6, 6, 8, 3})) + ";" + genSection(r, true) + ";" + genSection(r, true)
 	n := 0
-	emit(fmt.Sprintf("d64 serve %s %s%s%s%s %d %d %s %s %s", client, vlib.B(internal), vlib.B(rd), vlib.B(cd), vlib.B(wx), qclass, qtype, hexOfName(qname), down, ar))
+	qf, isWire := qnameField(r, qname, true)
+	emit(fmt.Sprintf("d64 serve %s %s %d %d %s %s %s", client, flags7(r, internal, rd, cd, wx, isWire), qclass, qtype, qf, down, ar))
 	n++
 	// follow up: the PTR query for the embedding of the first A record
 	if r.Chance(1, 3) {
 		for _, t := range parseAResp(ar).ans {
-			if t.kind == '4' {
+			if v4, ok := v4of(t.ip); t.kind == '4' && ok {
 				p := vlib.Pick(r, g.o.prefixes)
-				e := rfcEmbed(p, [4]byte(t.ip))
+				e := rfcEmbed(p, v4)
 				name := arpaName(e)
 				if r.Chance(1, 5) {
 					name = strings.ToUpper(name)
 				}
 				chase := vlib.Pick(r, []string{"n;0;r/300/3", "n;0;r/300/3,r/300/3,o/60/3", "n;3;-", "n;0;-", "g;0;-", "q;0;-", "x;0;-", "a;0;-", "w;0;-", "n;2;r/300/3"})
-				emit(fmt.Sprintf("d64 serve %s %s%s%sf %d 12 %s %s %s", client, vlib.B(internal), vlib.B(rd), vlib.B(cd), qclass, hexOfName(name),
+				pf, pw := qnameField(r, name, true)
+				emit(fmt.Sprintf("d64 serve %s %s %d 12 %s %s %s", client, flags7(r, internal, rd, cd, false, pw), qclass, pf,
 					vlib.Pick(r, []string{"3;fftt;-;n;-;300/300", "-", "0;tftt;-;n;-;60/60"}), chase))
 				n++
 				break
@@ -473,8 +578,9 @@ func genPTR(r *vlib.R, g *genCfg, emit func(string)) int {
 		name = arpaName(e)
 	}
 	client := genClient(r, g, !r.Chance(1, 8))
-	emit(fmt.Sprintf("d64 serve %s %s%s%sf %d 12 %s %s %s", client, vlib.B(r.Chance(1, 16)), vlib.B(!r.Chance(1, 12)), vlib.B(r.Chance(1, 12)),
-		vlib.Pick(r, []int{1, 1, 1, 1, 1, 1, 3}), hexOfName(name), vlib.Pick(r, []string{"3;fftt;-;n;-;300/300", "-"}),
+	pf, pw := qnameField(r, name, true)
+	emit(fmt.Sprintf("d64 serve %s %s %d 12 %s %s %s", client, flags7(r, r.Chance(1, 16), !r.Chance(1, 12), r.Chance(1, 12), false, pw),
+		vlib.Pick(r, []int{1, 1, 1, 1, 1, 1, 3}), pf, vlib.Pick(r, []string{"3;fftt;-;n;-;300/300", "-"}),
 		vlib.Pick(r, []string{"n;0;r/300/3", "n;0;-", "g;0;-", "q;0;-", "n;3;-"})))
 	return 1
 }
@@ -611,7 +717,20 @@ func facts() map[string]any {
 	d := dns64.New(&config.Config{DNS64: config.DNS64Config{Enabled: true}})
 	var h middleware.Handler = d
 	co, ok := h.(middleware.ClientOnly)
+	// how the library renders each single label byte in presentation form
+	rendering := [][]int{}
+	for b := 0; b < 256; b++ {
+		name, _, err := dns.UnpackDomainName([]byte{1, byte(b), 0}, 0)
+		row := []int{}
+		if err == nil {
+			for _, c := range []byte(strings.TrimSuffix(name, ".")) {
+				row = append(row, int(c))
+			}
+		}
+		rendering = append(rendering, row)
+	}
 	f := map[string]any{
+		"label_byte_rendering":       rendering,
 		"legal_prefix_bits":          legal,
 		"dnssec_ede_codes":           dnssec,
 		"cached_failure_ede_codes":   cached,
